@@ -207,7 +207,10 @@ C12_DependentsFirstDuringRemoval(e) ==
       \A ck \in { c \in OrdCmds(e) : c.base = x[2] /\ c.sigSeq > e.shutSeq } :
          (cp.launchSeq < e.shutSeq /\ (cp.exitSeq = 0 \/ cp.exitSeq > e.shutSeq))
             => (cp.exitSeq > 0 /\ cp.exitSeq < ck.sigSeq)
-C12_ShutdownCompletesDuringRemoval(e) == e.shutReturned /\ e.runReturned
+\* the shutdown returns; Run() returns too unless the removal request (an update replacing the process) has
+\* launched its replacement after the shutdown began - an explicit request, which keeps the project alive
+C12_ShutdownCompletesDuringRemoval(e) ==
+  e.shutReturned /\ (e.runReturned \/ \E c \in OrdCmds(e) : c.launchSeq > e.shutSeq)
 OrdShutViolated(e) ==
   { n \in {"C12_DependentsFirstDuringRemoval", "C12_ShutdownCompletesDuringRemoval"} :
       ~(CASE n = "C12_DependentsFirstDuringRemoval" -> C12_DependentsFirstDuringRemoval(e)
